@@ -67,6 +67,8 @@ pub struct Ghost {
     pub t: [Tok; NT],
     /// when set, every storage effect is an obligation failure ("panics before anything changes")
     pub armed: bool,
+    /// capacity the builders stored inside harness vectors give to memory they build (clone targets)
+    pub next_build_cap: usize,
     pub n_moves: usize,
     pub n_drop_calls: usize,
     pub n_clone_calls: usize,
@@ -109,6 +111,7 @@ const G0: Ghost = Ghost {
     v: [VEC0; NV],
     t: [TOK0; NT],
     armed: false,
+    next_build_cap: 0,
     n_moves: 0, n_drop_calls: 0, n_clone_calls: 0, total_destroyed: 0, ext_destroyed: 0, total_cloned: 0,
     in_count: 0, in_witness: 0, in_last_dst: 0, out_count: 0, out_last_src: 0,
     last_drop_at: 0, last_drop_n: 0, last_clone_src: 0, last_clone_dst: 0, last_clone_n: 0,
@@ -189,7 +192,7 @@ pub fn vec_of(a: usize) -> usize {
 pub fn region_new(k: usize, cap: usize, esz: usize, fixed: bool) {
     let gh = g();
     let base = gh.next_free;
-    gh.next_free = base + cap * esz + GAP;
+    gh.next_free = (base + cap * esz + GAP + 63) & !63;
     gh.esz = esz;
     let v = &mut gh.v[k];
     v.live = true;
@@ -207,7 +210,7 @@ fn relocate(k: usize, new_cap: usize) {
     let old_bytes = gh.v[k].cap * esz;
     let keep = if new_cap < gh.v[k].cap { new_cap * esz } else { old_bytes };
     let new_base = gh.next_free;
-    gh.next_free = new_base + new_cap * esz + GAP;
+    gh.next_free = (new_base + new_cap * esz + GAP + 63) & !63;
     let mut t = 0;
     while t < NT {
         let mut c = 0;
@@ -615,6 +618,9 @@ pub unsafe fn rec_clone(src: *const u8, dst: *mut u8, count: usize) {
 pub struct GhostB {
     pub k: usize,
     pub fixed: bool,
+    /// capacity (elements) of every memory chunk this builder creates (a fixed backend has all of
+    /// its capacity from the start; a resizable one typically starts at 0)
+    pub build_cap: usize,
 }
 
 pub struct GhostMem {
@@ -636,7 +642,8 @@ impl MemBuilder for GhostB {
         gh.v[k].builds += 1;
         gh.v[k].build_size = element_layout.size();
         gh.v[k].build_align = element_layout.align();
-        region_new(k, 0, element_layout.size(), self.fixed);
+        kani::assume(self.build_cap <= CAPMAX);
+        region_new(k, self.build_cap, element_layout.size(), self.fixed);
         gh.v[k].len_ptr = core::ptr::null();
         GhostMem { k, layout: element_layout }
     }
@@ -644,11 +651,10 @@ impl MemBuilder for GhostB {
 
 impl MemBuilderSizeable for GhostB {
     fn build_with_size(&mut self, element_layout: Layout, capacity: usize) -> GhostMem {
-        let m = self.build(element_layout);
         kani::assume(capacity <= CAPMAX);
-        let gh = g();
-        gh.v[m.k].cap = capacity;
-        gh.next_free += capacity * element_layout.size();
+        self.build_cap = capacity;
+        let m = self.build(element_layout);
+        g().v[m.k].last_resize = capacity;
         m
     }
 }
